@@ -202,6 +202,39 @@ def run(rep, tier, seed):
         if "HVP" in msg and ("not iterable" in msg or "same length" in msg):
             continue
         fails.append((case, msg))
+    # ---- probes: variables indexed by stepped / reversed slices (generation must succeed), and an exact zero of the argument of an even
+    #      power of Abs (smooth there); HVP against a central difference of the model's own J
+    from Solverz import Model, Var, Eqn, Abs as _Abs
+    def _probe(build, ypt, tag):
+        try:
+            m = build()
+            eqs, y0 = lang.quiet(m.create_instance)
+            nd = lang.quiet(made_numerical, eqs, y0, sparse=True, make_hvp=True)
+            ypt = np.asarray(ypt, dtype=float); v = np.array([1.0, -0.5, 2.0, 0.7, 1.3][:len(ypt)])
+            H = nd.HVP(ypt, nd.p, v).toarray()
+        except Exception as ex:  # noqa
+            fails.append((dict(model=tag), f"HVP generation / evaluation failed for an element-wise model of indexed variables ({tag}): "
+                                           f"{type(ex).__name__}: {str(ex)[:120]}")); return
+        n = len(ypt); ref = np.zeros((H.shape[0], n)); h = 1e-6
+        for j in range(n):
+            e = np.zeros(n); e[j] = h
+            ref[:, j] = (nd.J(ypt + e, nd.p).toarray() @ v - nd.J(ypt - e, nd.p).toarray() @ v) / (2 * h)
+        if not np.allclose(H, ref, rtol=1e-5, atol=1e-6):
+            r, c = np.unravel_index(np.argmax(np.abs(H - ref)), H.shape)
+            fails.append((dict(model=tag, y=[float(x) for x in ypt], v=[float(x) for x in v]),
+                          f"HVP entry ({r},{c}) = {H[r, c]!r} but d(J v)_{r}/dy_{c} = {ref[r, c]!r} by central differences of the model's own J ({tag})"))
+    def _b_step():
+        m = Model(); m.x = Var("x", [1.0, 2.0, 3.0, 4.0]); m.y = Var("y", 0.5)
+        m.f1 = Eqn("f1", m.x[0:4:2] ** 2 * m.y - 1); m.f2 = Eqn("f2", m.x[0:2] * m.x[2:4] - 1); m.f3 = Eqn("f3", m.y ** 2 - m.x[0]); return m
+    def _b_rev():
+        m = Model(); m.x = Var("x", [1.0, 2.0, 3.0, 4.0]); m.y = Var("y", 0.5)
+        m.f1 = Eqn("f1", m.x[1::-1] ** 2 * m.y - 1); m.f2 = Eqn("f2", m.x[0:2] * m.x[2:4] - 1); m.f3 = Eqn("f3", m.y ** 2 - m.x[0]); return m
+    def _b_abs():
+        m = Model(); m.x = Var("x", [0.0, 2.0]); m.y = Var("y", 0.5)
+        m.f1 = Eqn("f1", _Abs(m.x) ** 2 * m.y - 1); m.f2 = Eqn("f2", m.y ** 2 - m.x[0]); return m
+    _probe(_b_step, [1.0, 2.0, 3.0, 4.0, 0.5], "f1 = x[0:4:2]**2 * y - 1")
+    _probe(_b_rev, [1.0, 2.0, 3.0, 4.0, 0.5], "f1 = x[1::-1]**2 * y - 1")
+    _probe(_b_abs, [0.0, 2.0, 0.5], "f1 = Abs(x)**2 * y - 1 at x[0] = 0")
     # recorded finding: replay the witness every run
     kf = known_findings("C05")
     if kf:
